@@ -169,13 +169,23 @@ Judge(e) ==
            IF Ids(reg[e.a]) \subseteq Ids(reg[e.b]) /\ Triples(reg[e.a]) \subseteq Triples(reg[e.b]) THEN {} ELSE {"law." \o e.law}
        [] OTHER -> {"unknown-op." \o e.op}
 
+\* C08 over histories: an operation must not leave ANY live register ill-formed (or, if it was normalised, not
+\* normalised) that was fine before - also one it was not given (aliasing between an extract and its source)
+Collateral(e) ==
+  IF ~Has(e, "ch") THEN {}
+  ELSE LET W == IF Has(e, "out") THEN {e.out} ELSE IF Has(e, "a") THEN {e.a} ELSE {} IN
+       UNION {(IF WellFormed(reg[r]) /\ ~WellFormed(e.ch[r]) THEN {e.op \o ".wf.collateral"} ELSE {})
+              \cup (IF WellFormed(reg[r]) /\ Normalised(reg[r]) /\ WellFormed(e.ch[r]) /\ ~Normalised(e.ch[r])
+                    THEN {e.op \o ".wf.collateral-normalised"} ELSE {}) :
+              r \in {x \in (DOMAIN e.ch \cap DOMAIN reg) \ W : IsList(reg[x]) /\ IsList(e.ch[x])}}
+
 Init == l = 1 /\ reg = <<>>
 Next ==
   /\ l <= Len(Trace)
   /\ LET e == Trace[l] IN
        IF e.op = "Reset"
        THEN reg' = e.regs
-       ELSE LET v == Judge(e) IN
+       ELSE LET v == Judge(e) \cup Collateral(e) IN
             /\ IF v = {} THEN TRUE ELSE PrintT(<<"VERDICT", e.sid, l, v>>)
             /\ reg' = Post(e)
   /\ l' = l + 1
